@@ -178,4 +178,84 @@ mod verif_mpsc {
         drop(s);
         std::mem::forget(ch);
     });
+
+    // ---- C02 / C06: dropping an endpoint is a visible operation (the peer observes Disconnected) ----
+    // C06 (effects): afterwards the endpoint count is one less, buffered messages are untouched (they are drained before
+    // disconnection is reported), and if this was the last endpoint every peer blocked on the channel is released,
+    // otherwise nobody is woken.
+    // C02 (choice point): dropping the LAST endpoint does not commute with the peer's operations (Empty vs Disconnected),
+    // so a choice point must precede it, taken BEFORE the count changes (otherwise `send; drop` is one atomic step).
+    // Dropping another endpoint commutes with everything, so no choice point is demanded for it.
+    use shuttle_engine::verif_support::ENV;
+    static mut OBS: *const RefCell<ChannelState<u8>> = std::ptr::null();
+    static mut SEEN_SENDERS: usize = usize::MAX;
+    static mut SEEN_RECEIVERS: usize = usize::MAX;
+    fn env_observe() {
+        unsafe {
+            let s = (*OBS).borrow();
+            SEEN_SENDERS = s.known_senders;
+            SEEN_RECEIVERS = s.known_receivers;
+        }
+    }
+
+    /// which: 0 = Sender, 1 = SyncSender, 2 = Receiver
+    fn drop_contract(which: u8, choice_point: bool) {
+        let mut store = new_store();
+        use_store(&mut store);
+        let st = state_with([TaskState::Runnable, BLOCKED, BLOCKED], 0, std::rc::Rc::new(RefCell::new(SpecSched::new())));
+        let bound = if which == 0 { None } else { Some(1) };
+        let m: usize = if kani::any() { 1 } else { 0 };
+        // a receiver (task 2) waits only on an empty channel; a sender (task 1) only on a full bounded one
+        let rw: bool = kani::any();
+        kani::assume(!rw || m == 0);
+        let sw: bool = kani::any();
+        kani::assume(!sw || (bound.is_some() && m == 1));
+        let others: usize = if kani::any() { 1 } else { 0 };
+        let (senders, receivers) = if which == 2 { (1, 1 + others) } else { (1 + others, 1) };
+        let ch = Arc::new(mk(bound, m, sw, rw, receivers, senders));
+        let keep = ch.clone();
+        unsafe {
+            OBS = &*keep.state as *const _;
+            ENV = Some(env_observe);
+        }
+        let ((), cell) = run_in(st, || match which {
+            0 => drop(Sender { inner: ch }),
+            1 => drop(SyncSender { inner: ch }),
+            _ => drop(Receiver { inner: ch }),
+        });
+        if choice_point {
+            if others == 0 {
+                // one choice point, and the peer could still run before the endpoint disappeared
+                assert!(switches() == 1);
+                unsafe {
+                    assert!(SEEN_SENDERS == senders && SEEN_RECEIVERS == receivers);
+                }
+            }
+            kani::cover!(others == 0);
+            std::mem::forget(keep);
+            return;
+        }
+        let s = keep.state.borrow();
+        assert!(s.messages.len() == m);
+        if which == 2 {
+            assert!(s.known_receivers == receivers - 1 && s.known_senders == senders);
+            assert!(task_state(&cell, 1) == if sw && others == 0 { TaskState::Runnable } else { BLOCKED });
+            assert!(task_state(&cell, 2) == BLOCKED);
+        } else {
+            assert!(s.known_senders == senders - 1 && s.known_receivers == receivers);
+            assert!(task_state(&cell, 2) == if rw && others == 0 { TaskState::Runnable } else { BLOCKED });
+            assert!(task_state(&cell, 1) == BLOCKED);
+        }
+        kani::cover!(others == 0 && (rw || sw));
+        kani::cover!(others == 1);
+        drop(s);
+        std::mem::forget(keep);
+    }
+
+    seg!(c02_mpsc_sender_drop, drop_contract(0, true));
+    seg!(c02_mpsc_sync_sender_drop, drop_contract(1, true));
+    seg!(c02_mpsc_receiver_drop, drop_contract(2, true));
+    seg!(c06_mpsc_sender_drop, drop_contract(0, false));
+    seg!(c06_mpsc_sync_sender_drop, drop_contract(1, false));
+    seg!(c06_mpsc_receiver_drop, drop_contract(2, false));
 }
